@@ -3,4 +3,5 @@ NEXT GNext
 CONSTANT NSample = 0
 CONSTANT NRand = 50
 CONSTANT NStack = 50
+CONSTANT NMut = 50
 CHECK_DEADLOCK FALSE
